@@ -1,6 +1,6 @@
 #!/bin/bash
 # developer tool: runs every claimed check's quick tier on the current tree (refreshes evidence/)
-cd /verif
+cd "$(dirname "$(readlink -f "$0")")"
 for id in $(python3 -c "import json;print(' '.join(c['property_id'] for c in json.load(open('MANIFEST.json'))['checks']))"); do
   ./check $id --tier ${1:-quick} 2>&1 | grep -a "quick:\|thorough:\|VIOLATION\|INCONCLUSIVE\|HARNESS" | head -4
 done
